@@ -31,6 +31,7 @@ import Kust.Subset
 import Kust.RefVar
 import Kust.PathSplit
 import Kust.NsFilter
+import Kust.Select
 import Kust.Gen.Lists
 import Kust.Gen.FieldSpecs
 import Kust.Gen.Lists
@@ -536,6 +537,29 @@ def runNameref (op : String) (a : Json) : Except String Json := do
     return outToJson Json.str (Nameref.newName cs ref target roleRef (jS a "oldName") cands)
   | _ => throw s!"unknown nameref op {op}"
 
+/-! ### resmap.Select -/
+namespace SelectJ
+open Kust.Select
+def reqOfJ (j : Json) : Req :=
+  let op := match jS j "op" with
+    | "eq" => Op.eq | "neq" => Op.neq | "in" => Op.isin | "notin" => Op.notin | "has" => Op.has | _ => Op.hasnot
+  ⟨jS j "key", op, jStrs (j.getObjValD "vals")⟩
+def reqsOfJ (j : Json) : Option (List Req) := if j.isNull then none else some ((jArr j).map reqOfJ)
+end SelectJ
+
+def runSelect (a : Json) : Except String Json := do
+  let cs := csOfJson (a.getObjValD "cs")
+  let hg := a.getObjValD "hit"
+  let hit : String → String → Bool := fun p v => match (hg.getObjValD p).getObjVal? v with | .ok (Json.bool b) => b | _ => false
+  let badL := jStrs (a.getObjValD "bad")
+  let sj := a.getObjValD "sel"
+  let sel : Select.Sel := ⟨jS sj "group", jS sj "version", jS sj "kind", jS sj "name", jS sj "ns",
+    SelectJ.reqsOfJ (sj.getObjValD "lsel"), SelectJ.reqsOfJ (sj.getObjValD "asel")⟩
+  let rs ← (jArr (a.getObjValD "res")).mapM fun j => do
+    let c ← candOfJ j
+    return ({ c := c, labels := jPairs (j.getObjValD "labels"), annos := jPairs (j.getObjValD "annos") } : Select.SRes)
+  return outToJson (fun l => Json.arr (l.map fun (x : Select.SRes) => idToJson x.c.cur).toArray) (Select.select cs hit (fun p => badL.contains p) sel rs)
+
 /-! ### replacement filter -/
 namespace ReplJ
 open Kust.Repl
@@ -719,6 +743,7 @@ def dispatch (comp : String) (args : Json) : Except String Json :=
   | ["fix", op] => runFix op args
   | ["edit", op] => runEdit op args
   | ["nameref", op] => runNameref op args
+  | ["resmap", "select"] => runSelect args
   | ["loc", op] => runLoc op args
   | ["repl", op] => runRepl op args
   | ["match", op] => runMatch op args
